@@ -963,3 +963,53 @@ Proof.
   unfold lex_all. intros H.
   exact (lex_run_bounds plus src (S (String.length src)) (mkLS src pos0) ts f "" eq_refl eq_refl H).
 Qed.
+
+(* line and column too: a token's position is the position reached by scanning
+   the text in front of it (offset = its length in bytes, line = 1 + number of
+   line feeds, column = 1 + characters since the last line feed) *)
+Definition tok_pos_ok (src : string) (t : token) : Prop :=
+  exists pre post, src = pre ++ tk_val t ++ post /\ tk_pos t = adv_str pos0 pre.
+
+Lemma lex_run_positions plus whole fuel : forall st ts f pre,
+  whole = pre ++ ls_rest st -> ls_pos st = adv_str pos0 pre ->
+  lex_run plus fuel st = (ts, f) ->
+  Forall (tok_pos_ok whole) ts /\
+  match f with
+  | FEnd p a => exists pre' post', whole = pre' ++ "}}" ++ post' /\ p = adv_str pos0 pre' /\ a = adv_str pos0 (pre' ++ "}}")
+  | FErr e endp => exists pre' mid post', whole = pre' ++ mid ++ post' /\ endp = adv_str pos0 pre' /\
+                                          le_pos e = adv_str pos0 (pre' ++ mid)
+  | FFuel => True
+  end.
+Proof.
+  induction fuel as [|fuel IH]; intros st ts f pre EW EP H.
+  { inv H. split; [constructor|exact I]. }
+  cbn [lex_run] in H. rewrite lex_next_unfold in H.
+  destruct (span is_ws (ls_rest st)) as [w s1] eqn:S.
+  apply span_sound in S. destruct S as (ER & _ & _).
+  cbn zeta in H. destruct (scan_tok plus s1) as [k lx rest|lx rest|c consumed] eqn:T.
+  - destruct (lex_run plus fuel (mkLS rest (adv_str (adv_str (ls_pos st) w) lx))) as [ts' f'] eqn:R.
+    inv H. apply scan_tok_sound in T. destruct T as (-> & L & _).
+    apply (IH _ _ _ ((pre ++ w) ++ lx)) in R.
+    + destruct R as (B1 & B2). split; [|exact B2]. constructor; [|exact B1].
+      exists (pre ++ w), rest. cbn [tk_val tk_pos]. split.
+      * rewrite ER. now rewrite !sapp_assoc.
+      * now rewrite EP, adv_str_app.
+    + cbn. rewrite ER. now rewrite !sapp_assoc.
+    + cbn [ls_pos]. now rewrite EP, !adv_str_app.
+  - inv H. apply scan_tok_end in T. destruct T as (-> & ->).
+    split; [constructor|]. exists (pre ++ w), rest. cbn [ls_pos]. repeat split.
+    + rewrite ER. now rewrite !sapp_assoc.
+    + now rewrite EP, adv_str_app.
+    + now rewrite EP, !adv_str_app.
+  - inv H. apply scan_tok_err_prefix in T. destruct T as (r & ->).
+    split; [constructor|]. exists (pre ++ w), consumed, r. cbn [le_pos]. repeat split.
+    + rewrite ER. now rewrite !sapp_assoc.
+    + now rewrite EP, adv_str_app.
+    + now rewrite EP, !adv_str_app.
+Qed.
+
+Theorem lex_positions plus src ts f : lex_all plus src = (ts, f) -> Forall (tok_pos_ok src) ts.
+Proof.
+  unfold lex_all. intros H.
+  exact (proj1 (lex_run_positions plus src (S (String.length src)) (mkLS src pos0) ts f "" eq_refl eq_refl H)).
+Qed.
